@@ -77,7 +77,16 @@ def run(eng: Engine, ck: Check):
         for x in calls_in(q.node):
             if isinstance(x.func, ast.Attribute) and isinstance(x.func.value, ast.Name) and x.func.value.id in conj_lists and x.func.attr in ('extend', 'append') and \
                     x.args and mentions_name(x.args[0], a_name):
-                bad.append(x)
+                a0 = x.args[0]
+                # ONE element that is the union of all alternatives is the necessary condition: `append(set().union(*alts))`,
+                # `append({i for s in alts for i in s})`
+                is_union = x.func.attr == 'append' and (
+                    (isinstance(a0, ast.Call) and call_name(a0) == 'union' and any(isinstance(y, ast.Starred) and unparse(y.value) == a_name for y in a0.args)) or
+                    (isinstance(a0, ast.SetComp) and len(a0.generators) == 2 and unparse(a0.generators[0].iter) == a_name and
+                     unparse(a0.generators[1].iter) == unparse(a0.generators[0].target) and unparse(a0.elt) == unparse(a0.generators[1].target) and
+                     not a0.generators[0].ifs and not a0.generators[1].ifs))
+                if not is_union:
+                    bad.append(x)
         for n in walk_local(q.node):
             if isinstance(n, ast.AugAssign) and isinstance(n.op, ast.Add) and isinstance(n.target, ast.Name) and n.target.id in conj_lists and mentions_name(n.value, a_name):
                 bad.append(n)
